@@ -63,10 +63,21 @@ def bdilateIter (m : Mat) : Nat → Mat
 def binaryDilation (m : Mat) (iterations : Int) : Mat :=
   if iterations < 1 then bdilateIter m (m.rows * m.cols) else bdilateIter m iterations.toNat
 
+/-- the cells that are *not* open ocean: land dilated `ocean_dist - 1` times; no dilation at all for an ocean
+distance of at most one cell (since the `fix:` commit 8d30123; before it `binary_dilation` was called with
+`iterations < 1`, i.e. "until no change", and no cell was ocean) -/
+def notOcean (land : Mat) (oceanDist : Int) : Mat :=
+  if 1 < oceanDist then binaryDilation land (oceanDist - 1) else land
+
 /-- `fjord_index(land, ocean_dist)`; `land` holds 1 on land, 0 at sea -/
 def fjordInput (land : Mat) (oceanDist : Int) : Mat :=
-  let notOcean := binaryDilation land (oceanDist - 1)
-  { land with val := fun i j => -(notOcean.get 0 i j) - land.get 0 i j }
+  let no := notOcean land oceanDist
+  { land with val := fun i j => -(no.get 0 i j) - land.get 0 i j }
+
+/-- the code before the `fix:` commit 8d30123 -/
+def fjordInputOld (land : Mat) (oceanDist : Int) : Mat :=
+  let no := binaryDilation land (oceanDist - 1)
+  { land with val := fun i j => -(no.get 0 i j) - land.get 0 i j }
 
 def fjordIndex (land : Mat) (oceanDist : Int) : Mat := distance (fjordInput land oceanDist)
 
